@@ -47,7 +47,11 @@ def miri(rep, bin_name, seed, scratch):
         return
     rep.extra["miri_shard_evaluations"] = int(d.get("evaluations", 0))
     rep.extra["miri_shard_violations"] = len(d.get("violations", []))
-    if d.get("violations"):
-        # the same deterministic cases run natively too; a difference means UB-dependent behaviour
-        rep.inconc("miri shard of %s reports violations (%s); compare with the native run" %
-                   (bin_name, ", ".join(v.get("signature", "?") for v in d["violations"][:3])))
+    native = set(v.get("signature") for v in rep.violations)
+    extra = [v.get("signature", "?") for v in d.get("violations", []) if v.get("signature") not in native]
+    if extra:
+        # the shard's cases are a subset of what runs natively: a violation seen only
+        # under Miri means the harness behaves differently there
+        rep.inconc("miri shard of %s reports violations the native run does not (%s)" % (bin_name, ", ".join(extra[:3])))
+    for i in d.get("inconclusive", []):
+        rep.inconc("miri shard of %s: %s" % (bin_name, i.get("why")), i.get("count", 1))
